@@ -419,8 +419,16 @@ def integer_inputs(rec):
                 sens = m.compute_sensitivities(th, psi, **kw)
                 ip = m.compute_individual_parameters(th, psi, **kw)
                 red = m.compute_sensitivities(th, psi, reduce=True, **kw)
+                try:
+                    red_u = m.compute_sensitivities(th, psi, reduce=True, flattened=False, **kw)
+                except TypeError:
+                    red_u = red                 # (wrappers without the flattened option)
             except Exception as ex:
                 return '%s: evaluation at %s-typed inputs raises %r' % (lab, th.dtype, ex)
+            # the hierarchical form takes priority over the flattened option (documented): one vector of length n_ids * n_dim + n_parameters
+            if np.shape(red_u[1]) != np.shape(red[1]) or not np.allclose(np.asarray(red_u[1], dtype=float), np.asarray(red[1], dtype=float), equal_nan=True):
+                return '%s: compute_sensitivities(reduce=True, flattened=False) returns a gradient of shape %s, compute_sensitivities(reduce=True) of shape %s (3 individuals, %d dimensions, %d parameters)' % (
+                    lab, np.shape(red_u[1]), np.shape(red[1]), d, n)
             if not np.isfinite(ll):
                 return '%s: the harness instance is outside the support (log-likelihood %r)' % (lab, ll)
             res.append([np.asarray(ll, dtype=float), np.asarray(sens[1], dtype=float), np.asarray(sens[2], dtype=float), np.asarray(ip, dtype=float), np.asarray(red[1], dtype=float)])
